@@ -10,12 +10,13 @@ import (
 var _ = vReg("C03_ProofShapes", C03_ProofShapes)
 var _ = vReg("C03_ProofHistory", C03_ProofHistory)
 
-// c03l labels the two assertions inside the region of finding F22: Set accepts an empty (non-nil) value,
-// but the standard verifier rejects an existence proof whose value is empty, so neither the membership
-// proof of such a key nor a non-membership proof that uses it as a neighbour verifies.
+// c03l labels the two assertions inside the region of finding F22: Set accepts the empty key and an empty
+// (non-nil) value, but the standard verifier rejects an existence proof whose key or value is empty, so
+// neither the membership proof of such a pair nor a non-membership proof that uses it as a neighbour
+// (or that is about the empty key) verifies.
 func c03l(empty bool, label string) string {
 	if empty {
-		return "F22:proof-involving-a-key-with-an-empty-value-does-not-verify"
+		return "F22:proof-involving-an-empty-key-or-an-empty-value-does-not-verify"
 	}
 	return label
 }
@@ -36,7 +37,7 @@ func c03Check(h *vHist, it *ImmutableTree, m *vModel, root []byte, i int, tag st
 		vAssert(p.GetExist() != nil, tag+":kind-membership")
 		vAssert(vEqBytes(p.GetExist().Key, k), tag+":membership-key")
 		vAssert(vEqBytes(p.GetExist().Value, m.vals[i]), tag+":membership-value")
-		vAssert(ics23.VerifyMembership(ics23.IavlSpec, root, p, k, m.vals[i]), c03l(len(m.vals[i]) == 0, tag+":membership-verifies"))
+		vAssert(ics23.VerifyMembership(ics23.IavlSpec, root, p, k, m.vals[i]), c03l(len(k) == 0 || len(m.vals[i]) == 0, tag+":membership-verifies"))
 		// bound to the value
 		other := vBytes("othervalue", 1)
 		vAssume(vNot(vEqBytes(other, m.vals[i])))
@@ -61,7 +62,7 @@ func c03Check(h *vHist, it *ImmutableTree, m *vModel, root []byte, i int, tag st
 		// bracketed by the adjacent keys of the model
 		r := m.rankOf(i)
 		li, ri := m.nth(n, r-1), m.nth(n, r)
-		emptyNeighbour := (li >= 0 && len(m.vals[li]) == 0) || (ri >= 0 && len(m.vals[ri]) == 0)
+		emptyNeighbour := len(k) == 0 || (li >= 0 && (len(m.vals[li]) == 0 || len(h.p.keys[li]) == 0)) || (ri >= 0 && (len(m.vals[ri]) == 0 || len(h.p.keys[ri]) == 0))
 		vAssert(ics23.VerifyNonMembership(ics23.IavlSpec, root, p, k), c03l(emptyNeighbour, tag+":nonmembership-verifies"))
 		if li >= 0 {
 			vAssert(ne.Left != nil, tag+":left-neighbour-missing")
@@ -92,7 +93,7 @@ func C03_ProofShapes() {
 	maxH := 2
 	if vTier() == "thorough" {
 		maxH = 3
-		cfg.lenVars = 2
+		cfg.lenSet = []int{0, 1, 5}
 	}
 	h := vShapeState(cfg, maxH, 1, []int{1, 2})
 	if h.p.n == 0 {
